@@ -54,6 +54,9 @@ class Composition:
             self.colors = list(gen.COLORS) if rng.random() < 0.5 else self.colors
             force_transitions = rng.sample(TRANSITIONS, len(TRANSITIONS))
             force_all_actions = True
+        # the declared order of object types and colours is arbitrary: nothing may depend on it
+        rng.shuffle(self.types)
+        rng.shuffle(self.colors)
         self.shape = gen.rand_shape(rng, hmax, wmax)
         self.area = gen.obs_space_area(rng)
         self.unique_type = None
